@@ -30,6 +30,32 @@ Theorem C10_values_roundtrip : forall q,
 Proof. exact values_roundtrip. Qed.
 Print Assumptions C10_values_roundtrip.
 
+(* escape is a byte-wise homomorphism and unescape is compositional: the behaviour of the codec
+   on every string is determined by its behaviour on single bytes and on %XY triples *)
+Theorem C10_escape_homomorphism : forall m a b,
+  escape m (a ++ b) = (escape m a ++ escape m b)%string.
+Proof. exact escape_app. Qed.
+Print Assumptions C10_escape_homomorphism.
+
+Theorem C10_unescape_compositional : forall m a a' b,
+  unescape m a = Some a' ->
+  unescape m (a ++ b) = option_map (fun t => (a' ++ t)%string) (unescape m b).
+Proof. exact unescape_app'. Qed.
+Print Assumptions C10_unescape_compositional.
+
+(* NO NEW DELIMITER, every byte string, every mode: the output of escape contains no control
+   byte, space or '#'; in path mode no '?'; in query mode none of ? & = ; / either *)
+Theorem C10_escape_no_new_delimiter : forall m s, delimiter_free m (escape m s).
+Proof. exact escape_delimiter_free. Qed.
+Print Assumptions C10_escape_no_new_delimiter.
+
+(* the default escaping of any byte string is a valid encoding (EscapedPath / EscapedFragment
+   never re-escape their own output) *)
+Theorem C10_escape_output_valid : forall s,
+  valid_encoded MPath (escape MPath s) = true /\ valid_encoded MFragment (escape MFragment s) = true.
+Proof. exact (fun s => conj (escape_valid_path s) (escape_valid_fragment s)). Qed.
+Print Assumptions C10_escape_output_valid.
+
 (* ---- the gin parameter checker ---- *)
 
 Theorem C10_checker_sound : forall v,
@@ -52,6 +78,13 @@ Print Assumptions C10_checker_exact.
 Theorem C10_checker_decode_stable : forall v, param_ok v = true -> path_unescape v = Some v.
 Proof. exact checker_decode_stable. Qed.
 Print Assumptions C10_checker_decode_stable.
+
+(* double encoding, for every byte string v: if the client encodes v twice, the router's single
+   decoding leaves escape(v); whenever that differs from v it contains '%' and is rejected *)
+Theorem C10_double_encoding_rejected : forall v,
+  escape MPath v <> v -> param_ok (escape MPath v) = false.
+Proof. exact double_encoding_rejected. Qed.
+Print Assumptions C10_double_encoding_rejected.
 
 (* ---- path generation adds none of '%' '?' '#' ---- *)
 (* for every pattern, every parameter list in every (map iteration) order *)
@@ -133,6 +166,27 @@ Theorem C10_wire_exact : forall hosts h path q c pp sq f,
   exists f', cut c_qm (o_wire c) = (pp, o_rawquery c, f').
 Proof. exact wire_exact. Qed.
 Print Assumptions C10_wire_exact.
+
+(* GLUE: NewHTTPProxyDetailed serialises the balancer's URL and http.NewRequest parses the
+   string again.  assemble_glue models exactly that (parse, append, String, parse, observe);
+   it is what the correspondence compares with the executor.  For every '#'-free path, every
+   host, every forwarded map the second parse changes nothing the executor sees *)
+Theorem C10_reparse_identity : forall h path q,
+  has_byte c_hash path = false -> assemble_glue h path q = assemble h path q.
+Proof. exact reparse_identity. Qed.
+Print Assumptions C10_reparse_identity.
+
+Theorem C10_glue_url_ok : forall hosts h path q c,
+  In h hosts -> nodup_keys q = true -> has_byte c_hash path = false ->
+  assemble_glue h path q = Some c -> url_ok hosts path q c.
+Proof. exact glue_url_ok. Qed.
+Print Assumptions C10_glue_url_ok.
+
+Theorem C10_glue_meets_oracle : forall hosts h path q,
+  In h hosts -> nodup_keys q = true ->
+  asm_spec_b hosts path q (assemble_glue h path q) = true.
+Proof. exact glue_meets_oracle. Qed.
+Print Assumptions C10_glue_meets_oracle.
 
 (* the boolean oracle used on the implementation's observations is sound for the Prop *)
 Theorem C10_oracle_sound : forall hosts path q o,
@@ -241,6 +295,15 @@ Example C10_ex_wire_as_generated :
   option_map o_wire (assemble "http://h" "/b/2024%2FQ1/it's(draft)!?s=1" []) =
   Some "/b/2024%2FQ1/it's(draft)!?s=1".
 Proof. vm_compute. reflexivity. Qed.
+
+(* the re-parse is really exercised: with a fragment (outside the statement) the model still runs *)
+Example C10_ex_glue_fragment :
+  option_map o_frag (assemble_glue "http://h" "/b/x#a b?s=1" []) = Some "a b?s=1".
+Proof. vm_compute. reflexivity. Qed.
+
+Example C10_ex_double_encoding :
+  escape MPath (escape MPath "a b") = "a%2520b" /\ param_ok (escape MPath "a b") = false.
+Proof. vm_compute. auto. Qed.
 
 Example C10_ex_assemble :
   assemble "http://h" "/b/x y?s=1" [("k", ["a b"; "&=?#%"]); ("", [""])] =
